@@ -181,6 +181,39 @@ def check(ctx):
                                     % (name, n1, np_, p, n1 // p),
                                     {"code": code.hex(), "config": list(cfg), "stage": name, "interval": p, "iterations": n1, "polls": np_,
                                      "how": "echo '<code> 30000000 3 5 250 394 1 <interval> -1' | build/harness-target/debug/slxh polls"})
+        # 5. every bulk-copy loop has its own counter starting at 0, so a copy of n >= 1 words polls ceil(n / p) >= 1 times
+        #    whatever the interval: k short copies in a straight line must add at least k polls to the main loop's
+        #    ceil(instructions / p)
+        copy_lines, copy_meta = [], []
+        for opn in ("CODECOPY", "CALLDATACOPY", "RETURNDATACOPY", "EXTCODECOPY"):
+            for size, k in ((0x20, 6), (0x60, 10), (0x40, 14)):
+                b = gen.Asm()
+                for _ in range(k):
+                    b.push(size).push(0).push(0)
+                    if opn == "EXTCODECOPY":
+                        b.op("CALLER")
+                    b.op(opn)
+                b.op("STOP")
+                ninstr = k * (5 if opn == "EXTCODECOPY" else 4) + 1
+                for p in (4, 7, 100):
+                    copy_lines.append(gen.vm_line(b.assemble(), cfg, poll_every=p))
+                    copy_meta.append((opn, size, k, p, ninstr))
+        ok, out, diag = vlib.run_harness_sharded(hb, ["polls"], copy_lines, timeout=600)
+        ctx.oblige("harness:polls:copies", "search", ok, diag)
+        for line, (opn, size, k, p, ninstr), l in zip(copy_lines, copy_meta, out):
+            m = re.match(r"XP \[([\d;]*)\] (\d)", l)
+            if not m or m.group(2) != "0" or not m.group(1):
+                continue
+            vm_polls = int(m.group(1).split(";")[0])
+            evals += 1
+            need = -(-ninstr // p) + k
+            if vm_polls < need:
+                ctx.violate("C13:copy-poll-rate:%s:%d:%d:p%d" % (opn, size, k, p),
+                            "%d x %s of %d bytes at interval %d: the VM stage polled %d times, fewer than the %d of the main loop "
+                            "plus one per copy loop" % (k, opn, size, p, vm_polls, need),
+                            {"code": line.split(" ")[0], "config": list(cfg), "interval": p, "polls": vm_polls, "needed": need,
+                             "how": "echo '<code> 30000000 3 5 250 394 1 <interval> -1' | build/harness-target/debug/slxh polls"})
+        ctx.coverage["copy_loop_poll_cases"] = len(copy_lines)
         ctx.coverage["stage_poll_rates_checked"] = rate_checked
         ctx.coverage.update({"evaluations": evals, "distinct_nontrivial": nontrivial,
                              "programs": len(codes), "intervals": intervals,
